@@ -42,6 +42,7 @@ def handle (line : String) : String :=
   else if l.startsWith "load2 " then handleLoad2 l
   else if l.startsWith "machcount " then handleMachCount l
   else if l.startsWith "trapglobals " then handleTrapGlobals l
+  else if l.startsWith "longfault " then handleLongFault l
   else if l.startsWith "dumpspec " then handleDumpSpec l
   else if l.startsWith "e2edump " then handleE2eDump l
   else "bad"
